@@ -115,6 +115,8 @@ CHECKS['C02'] = {
     'targets': [
         {'name': 'c02_parsers', 'src': ['harness/C02_parsers.cpp'], 'ccodecs': True, 'meter': True, 'quick_n': 1200000, 'thorough_n': 16000000, 'maxlen': 500, 'min_nontrivial': 50000, 'timeout_is_violation': True, 'budget': 8,
          'class_floors': {'entry_cpp': 50000, 'entry_mini': 50000, 'entry_micro': 50000, 'entry_templated': 30000, 'reached_field_parsing': 100000, 'cpp_accepted': 5000, 'cpp_rejected': 20000}},
+        {'name': 'c02_gateways', 'src': ['harness/C02_gateways.cpp'], 'ccodecs': True, 'quick_n': 1500000, 'thorough_n': 15000000, 'maxlen': 700, 'min_nontrivial': 30000, 'timeout_is_violation': True, 'budget': 20,
+         'class_floors': {'binary_unlimited': 3000, 'binary_limit_1MiB': 3000, 'templating': 3000, 'text': 3000, 'slip': 3000, 'websocket_server': 3000, 'websocket_client': 3000, 'packet_tunnel': 3000, 'mini_packet_tunnel': 3000, 'mini_c_gateway': 3000, 'micro_c_gateway': 3000, 'reuse_after_reset_checked': 30000}},
     ],
 }
 
